@@ -228,6 +228,15 @@ def escape_tables(check: Check, repo: Repo, rules: dict, rule: str = "ESCAPE-TAB
             meta_letters.add("u")
         else:
             raise AnalysisError(f"{META}::escape: unexpected alternative {alt}")
+    # ---- the decoder on its model texts (DECODE, sa/unescsem.py) decides; the reading of the scanner's letter table
+    # and of the decoder's if-chain further down is a second opinion behind it
+    dec_ok = _decode_semantics(check, repo, rules, rule, only)
+    if only is not None:
+        return
+    check.second_opinion(lambda c: _escape_tables_structural(c, repo, meta_letters), "DECODE", dec_ok)
+
+
+def _escape_tables_structural(check: Check, repo: Repo, meta_letters: set) -> None:
     esc_node = next((n for n in repo.mod(SCANNER).tree.body if isinstance(n, ast.Assign) and ast.unparse(n.targets[0]) == "ESCAPES"), None)
     if esc_node is None:
         raise AnalysisError(f"anchor vanished: {SCANNER}::ESCAPES")
@@ -265,6 +274,9 @@ def escape_tables(check: Check, repo: Repo, rules: dict, rule: str = "ESCAPE-TAB
         ok = got == v or (got == "<itself>" and v == le)
         check.oblige("ESCAPE-TABLE", f"{UNESCAPE}::_decode_escape_sequence", f"\\{le} decodes to U+{ord(v):04X}" if ok else f"\\{le} decodes to {got!r} where pest defines U+{ord(v):04X}", ok, sample=le == "0")
         check.count("escape_values")
+
+
+def _decode_semantics(check: Check, repo: Repo, rules: dict, rule: str, only: str | None) -> bool:
     # \u{...} digit counts: meta hex_digit{2, 6}; decoder range check
     uni = rules["unicode"][1]
     rep = next((x for x in uni[1] if x[0] == "rep"), None) if uni[0] == "seq" else None
@@ -292,6 +304,7 @@ def escape_tables(check: Check, repo: Repo, rules: dict, rule: str = "ESCAPE-TAB
     for cat, msgs in sorted(cats.items()):
         sig = f"unescape_string: {cat}"
         check.oblige(rule, construct, sig, False, sample=True, finding=Finding(rule, construct, sig, f"{sig}: e.g. {msgs[0]} ({len(msgs)} of {n} model texts)", {"witness": msgs[0]}))
+    return not bad
 
 
 def emitted_kinds(fn: ast.FunctionDef) -> set[str]:
